@@ -5,7 +5,11 @@
 
     Templates are abstracted to what inheritance depends on: text, [block]
     tags (name, [required], body, the optional name written on [endblock]),
-    [{{ block.super }}] and [extends] tags.  A loader is an association list
+    [{{ block.super }}], [extends] tags, silent tags (assign, comment) and
+    [if] / [for] wrappers -- the last three because every body is rendered
+    by ast.BlockNode.render_to_output, which drops a body whose nodes are all
+    [blank] when Environment.suppress_blank_control_flow_blocks is set; the
+    model carries the static blank flag of each node class ([blank_item]).  A loader is an association list
     name -> template (DictLoader / CachingDictLoader).
 
     What is transcribed, function by function:
